@@ -341,7 +341,7 @@ class SafeConstructor(BaseConstructor):
 
     def construct_yaml_timestamp(self, node):
         value = self.construct_scalar(node)
-        match = self.timestamp_regexp.match(node.value)
+        match = self.timestamp_regexp.match(value)
         if match is None:
             raise ConstructorError(None, None,
                     "invalid timestamp value %r" % value, node.start_mark)
